@@ -17,6 +17,14 @@ tmpfs directory:
             (clean-up, any fall-back) is explored with a further kill / failing call like the ordinary path
   names     temp-name profiles (letters / all digits / underscores) as an environment answer
 
+  writers   two writes of one entry point overlapping in time inside one process — to the SAME destination (contents of
+            different length) and to two SIBLING files of one directory: writer A is parked before its boundary i, B
+            runs until it is parked before its boundary j, A runs to its end, B runs to its end, for every (i, j)
+            (incl. B entirely inside A's window and A;B in sequence = a second write in the same process); thorough
+            also old absent, both content assignments, a second window for A (i2 > i) and every failing call of the
+            (i, j) schedule x {EIO, EACCES} for atomic_write_bytes.  Real threads, exactly one running, hand-over at
+            the numbered boundaries; fault-free unless stated (a kill at a boundary IS the reader probe there)
+
 A reader probe runs at every boundary of every execution (and on the final state).
 
 Seam completeness (mc.escape): a process-wide audit hook sees every open / rename / remove / mkdir / truncate / chmod /
@@ -39,6 +47,11 @@ Oracle (from the property statement + DESIGN "C08"):
                      is left although no injected failure hit a clean-up call on that stray; after a kill a stray
                      may remain (it must only not be discoverable)
   nofault:*          any of the above (or an exception) without any fault having fired yet
+  writers[rel]:*     two-writer leg: partial-visible = a destination is neither its old content nor the complete new
+                     content of a writer that targets it; return-without-new = a writer returned normally and its
+                     destination is not a complete new content (its own when nobody else writes that file or the other
+                     write was over before this one began); temp-discoverable as above; temp-left = both writers are
+                     done, one of them failed, a stray file remains.  A writer that merely raises is not judged
 """
 from __future__ import annotations
 
@@ -47,11 +60,14 @@ import inspect
 import json
 import os
 import shutil
+import sys
+import tempfile as _tempfile
+import threading
 import types
 from typing import Any, Dict, List, Optional, Tuple
 
 from mc.runner import Run, Stats, HarnessError, h64
-from mc.faults import FaultEngine, KILL_BEFORE, KILL_AFTER, FAIL, FAIL_DROP, SHORT, PARTIAL_KILL, fault_tag
+from mc.faults import SEAMS, Crash, FaultEngine, KILL_BEFORE, KILL_AFTER, FAIL, FAIL_DROP, SHORT, PARTIAL_KILL, fault_tag
 from mc.escape import EscapeWatch, NeedFine, ALL as FINE_ALL, PREFIX as ESC
 
 import clematis.io.atomic as atomic_mod
@@ -67,6 +83,8 @@ CLEANUP_CALLS = {"Path.exists", "Path.is_file", "Path.unlink", "unlink", "remove
 REPLACE_LABELS = ("replace", "rename", "Path.replace", "Path.rename", ESC + "os.rename")
 
 BIG = 100 * 1024
+DEEP_ENTRIES = ("atomic_write_bytes", "write_snapshot", "rewrite_jsonl")    # one per module that owns a write path
+DEEPER_ENTRY = "atomic_write_bytes"      # the function every entry point funnels into: two windows, failing calls
 
 
 BIG_BYTES = bytes((i * 131 + (i >> 8) * 7) % 251 for i in range(BIG))
@@ -88,56 +106,61 @@ class _Store:
 
 # ------------------------------------------------------------------ entry points
 # spec(d, tag) -> dict(thunk, dests=[abs paths], olds=[bytes], news=[bytes|None], must_new=[bool], readers)
-def _spec(entry: str, d: str, tag: str) -> Dict[str, Any]:
+def _spec(entry: str, d: str, tag: str, alt: bool = False) -> Dict[str, Any]:
+    """``alt``: the same entry point writing a *sibling* destination in the same directory (second writer of the
+    concurrent-writers leg)."""
     j = os.path.join
     if entry == "atomic_write_bytes":
         data = {"empty": b"", "small": b"new", "big": BIG_BYTES}[tag]
-        p = j(d, "data.json")
+        p = j(d, "other.json" if alt else "data.json")
         return dict(thunk=lambda: atomic_mod.atomic_write_bytes(p, data), dests=[p], olds=[OLD_GENERIC], news=[data],
                     must_new=[True], readers=("snap", "log"))
     if entry == "atomic_write_text":
         text = {"empty": "", "small": "new", "big": BIG_TEXT}[tag]
-        p = j(d, "t1.jsonl")
+        p = j(d, "t2.jsonl" if alt else "t1.jsonl")
         return dict(thunk=lambda: atomic_mod.atomic_write_text(p, text), dests=[p], olds=[OLD_GENERIC],
                     news=[text.encode("utf-8")], must_new=[True], readers=("snap", "log"))
     if entry == "atomic_write_json":
         obj = {"empty": {}, "small": {"k": "new", "a": 1}, "big": {"k": BIG_TEXT, "a": 1}}[tag]
-        p = j(d, "export.json")
+        p = j(d, "export2.json" if alt else "export.json")
         new = json.dumps(obj, sort_keys=True, separators=(",", ":"), ensure_ascii=False).encode("utf-8")
         return dict(thunk=lambda: atomic_mod.atomic_write_json(p, obj), dests=[p], olds=[OLD_GENERIC], news=[new],
                     must_new=[True], readers=("snap", "log"))
     if entry == "write_snapshot":
         etag = {"small": "new", "big": BIG_ETAG}[tag]
-        ctx = types.SimpleNamespace(cfg={"t4": {"snapshot_dir": d}}, agent_id="A", turn_id=1)
+        agent = "B" if alt else "A"
+        ctx = types.SimpleNamespace(cfg={"t4": {"snapshot_dir": d}}, agent_id=agent, turn_id=1)
         state = types.SimpleNamespace(store=_Store(), version_etag=None)
-        p = j(d, "state_A.json")
+        p = j(d, "state_%s.json" % agent)
         return dict(thunk=lambda: snap_mod.write_snapshot(ctx, state, etag, applied=1, deltas=None),
                     dests=[p, p + ".meta"], olds=[OLD_SNAP, OLD_META], news=[None, None], must_new=[True, False],
                     readers=("snap",), check_json={"version_etag": etag})
     if entry == "_write_sidecar_meta":
-        p = j(d, "state_A.json")
+        p = j(d, "state_B.json" if alt else "state_A.json")
         return dict(thunk=lambda: snap_mod._write_sidecar_meta(p, schema_version="v1"), dests=[p + ".meta"],
                     olds=[OLD_META], news=[None], must_new=[False], readers=("snap",))
     if entry in ("_write_lines", "write_snapshot_auto"):
         payload = {"version_etag": {"small": "new", "big": BIG_ETAG}[tag], "schema_version": "v1"}
-        p = j(d, "snapshot-E1.full.json")
-        header = {"schema": "snapshot:v1", "mode": "full", "etag_to": "E1", "codec": "none", "level": 0}
+        eto = "E2" if alt else "E1"
+        p = j(d, "snapshot-%s.full.json" % eto)
+        header = {"schema": "snapshot:v1", "mode": "full", "etag_to": eto, "codec": "none", "level": 0}
         body = json.dumps(payload, sort_keys=True, separators=(",", ":"))
         if entry == "_write_lines":
             th = lambda: snap_mod._write_lines(p, header, body, codec="none", level=0)  # noqa: E731
         else:
-            th = lambda: snap_mod.write_snapshot_auto(d, etag_from=None, etag_to="E1", payload=payload)  # noqa: E731
+            th = lambda: snap_mod.write_snapshot_auto(d, etag_from=None, etag_to=eto, payload=payload)  # noqa: E731
         return dict(thunk=th, dests=[p, p + ".meta"], olds=[OLD_SNAP, OLD_META], news=[None, None],
                     must_new=[True, False], readers=("snap",))
     if entry == "rewrite_jsonl":
         recs = {"empty": [], "small": [{"turn": 1, "msg": "new"}],
                 "big": BIG_RECS}[tag]
-        p = j(d, "t1.jsonl")
+        fname = "t2.jsonl" if alt else "t1.jsonl"
+        p = j(d, fname)
         new = "".join(json.dumps(r, ensure_ascii=False, sort_keys=True, separators=(",", ":")) + "\n" for r in recs)
 
         def th():
             os.environ["CLEMATIS_LOG_DIR"] = d
-            return log_mod.rewrite_jsonl("t1.jsonl", recs)
+            return log_mod.rewrite_jsonl(fname, recs)
         return dict(thunk=th, dests=[p], olds=[OLD_LOG], news=[new.encode("utf-8")], must_new=[True], readers=("log",))
     raise HarnessError("unknown entry %s" % entry)
 
@@ -163,8 +186,9 @@ def entries_present() -> List[str]:
 
 # ------------------------------------------------------------------ machinery per process
 _ENG: Optional[FaultEngine] = None
+_SEAMS_ABSENT: List[str] = []
 _WATCH: Optional[EscapeWatch] = None
-_REF: Dict[Tuple[str, str], List[bytes]] = {}
+_REF: Dict[Tuple[str, str, bool], List[bytes]] = {}
 _MISTAKABLE: Dict[Tuple[Tuple[str, ...], Tuple[str, ...]], List[str]] = {}
 
 
@@ -175,7 +199,12 @@ def engine() -> FaultEngine:
             if not callable(getattr(atomic_mod, name, None)):
                 raise HarnessError("clematis.io.atomic.%s is gone" % name)
         e = FaultEngine()
-        e.install(atomic_mod)                         # os, tempfile, time, Path, open (HarnessError if a seam is gone)
+        # os, tempfile, time, Path, open — each where the module has it as a global.  A seam the implementation does
+        # not import (any more) is no machinery problem: whatever it uses instead reaches the file system either
+        # through another proxied global or through a door the audit hook sees (esc:* boundaries, below)
+        e.install(atomic_mod, names=tuple(n for n in SEAMS if n == "open" or n in atomic_mod.__dict__))
+        global _SEAMS_ABSENT
+        _SEAMS_ABSENT = [n for n in SEAMS if n != "open" and n not in atomic_mod.__dict__]
         # the callers' own makedirs become boundaries too, and a caller that by-passes the atomic path with a plain
         # open() is seen (its raw writes are numbered like any other)
         e.install(snap_mod, names=("os", "open"))
@@ -186,6 +215,14 @@ def engine() -> FaultEngine:
         _WATCH = EscapeWatch(e)
         _WATCH.install()
     return _ENG
+
+
+def _det_names(eng: FaultEngine) -> Any:
+    """Temp names are an environment answer whichever door the implementation takes to the stdlib name generator
+    (the tempfile proxy does the same per call): the engine's counting sequence for the whole execution."""
+    saved = getattr(_tempfile, "_name_sequence", None)
+    _tempfile._name_sequence = eng.names
+    return saved
 
 
 def _fresh(d: str) -> None:
@@ -201,16 +238,16 @@ def _read(p: str) -> Optional[bytes]:
         return None
 
 
-def reference_new(entry: str, tag: str, wdir: str) -> List[bytes]:
+def reference_new(entry: str, tag: str, wdir: str, alt: bool = False) -> List[bytes]:
     """New content of every destination.  For the plain writers it follows from the documented format (see _spec);
     for the composite snapshot writers it is what an undisturbed, un-instrumented write produces (checked to be
     well-formed JSON carrying the requested etag)."""
-    key = (entry, tag)
+    key = (entry, tag, alt)
     if key in _REF:
         return _REF[key]
     d = os.path.join(wdir, "ref")
     _fresh(d)
-    sp = _spec(entry, d, tag)
+    sp = _spec(entry, d, tag, alt)
     eng = _ENG
     if eng is not None and eng.active:
         raise HarnessError("reference run while an execution is active")
@@ -383,6 +420,7 @@ def _execute(entry: str, old_tag: str, new_tag: str, plan: List[Dict[str, Any]],
 
     eng.begin(plan, probe=probe, root=d, names=names)
     watch.begin(d, fs_sig, fine)
+    saved_seq = _det_names(eng)
     try:
         outcome, val = eng.run(sp["thunk"])
         if watch.need_at is not None:   # the target swallowed the NeedFine signal
@@ -394,6 +432,7 @@ def _execute(entry: str, old_tag: str, new_tag: str, plan: List[Dict[str, Any]],
         trace, fired = eng.trace, eng.fired
         unfired_at = [f for f in eng.unfired() if "at" in f]
     finally:
+        _tempfile._name_sequence = saved_seq
         watch.end()
         eng.end()
     if unfired_at:
@@ -453,6 +492,312 @@ def _execute(entry: str, old_tag: str, new_tag: str, plan: List[Dict[str, Any]],
         viol.append((sig, head + " :: " + " | ".join(ds)))
     r.viol = viol
     r.klass = (outcome, type(val).__name__ if outcome == "raise" else "", tuple(s.split("(")[0] for s in states), bool(strays))
+    return r
+
+
+
+# ------------------------------------------------------------------ two writers in one process (schedule leg)
+# The temp file, the retry state and the clean-up of a write are private to that write.  Two writes that overlap in
+# time inside one process (worker threads of the agent-parallel driver, a maintenance thread next to the turn loop)
+# must therefore each be all-or-nothing, whether they target the same destination or two files of one directory.
+# The two writers run as real threads of which exactly one runs at any time; the hand-over points are the numbered
+# I/O boundaries (between two boundaries a writer touches nothing another thread can see).
+BLOCK_TIMEOUT = 60.0    # a writer that does not reach its next boundary: waits for something the parked writer holds
+
+
+class _Baton:
+    def __init__(self, n: int) -> None:
+        self.cv = threading.Condition()
+        self.state = ["new"] * n        # new | running | parked | done
+        self.count = [0] * n            # boundaries reached by writer t
+        self.target: List[Optional[int]] = [None] * n   # writer t parks before its boundary number target[t]
+        self.free = False
+        self.tls = threading.local()
+
+    def me(self) -> Optional[int]:
+        return getattr(self.tls, "t", None)
+
+    # -- writer side
+    def wait_start(self, t: int) -> None:
+        with self.cv:
+            while self.state[t] != "running":
+                self.cv.wait()
+
+    def boundary(self, t: int) -> None:
+        c = self.count[t]
+        self.count[t] = c + 1
+        if self.free or self.target[t] is None or c != self.target[t]:
+            return
+        with self.cv:
+            self.state[t] = "parked"
+            self.cv.notify_all()
+            while self.state[t] != "running":
+                self.cv.wait()
+
+    def finish(self, t: int) -> None:
+        with self.cv:
+            self.state[t] = "done"
+            self.cv.notify_all()
+
+    # -- controller side
+    def resume(self, t: int, target: Optional[int]) -> str:
+        import time as _t
+        with self.cv:
+            if self.state[t] == "done":
+                return "done"
+            self.target[t] = target
+            self.state[t] = "running"
+            self.cv.notify_all()
+            end = _t.monotonic() + BLOCK_TIMEOUT
+            while self.state[t] == "running":
+                left = end - _t.monotonic()
+                if left <= 0:
+                    return "blocked"
+                self.cv.wait(left)
+            return self.state[t]
+
+    def release_all(self) -> None:
+        with self.cv:
+            self.free = True
+            for t in range(len(self.state)):
+                if self.state[t] != "done":
+                    self.state[t] = "running"
+            self.cv.notify_all()
+
+
+class CRes:
+    __slots__ = ("outs", "trace", "fired", "viol", "klass", "nprobes", "parks", "blocked", "counts", "escapes", "doors")
+
+
+def _segs_str(segs: List[Tuple[int, Optional[int]]]) -> str:
+    parts = ["%s to its boundary #%d" % ("AB"[t], n) for t, n in segs if n is not None]
+    return "; ".join(parts + ["then each to the end"]) if parts else "A to the end, then B"
+
+
+def execute_conc(entry: str, old_tag: str, tags: Tuple[str, str], rel: str, segs: List[Tuple[int, Optional[int]]],
+                 plan: List[Dict[str, Any]], wdir: str) -> CRes:
+    """Two writers of ``entry`` (A writes content tags[0]; B writes tags[1] to the same destination when rel ==
+    'same', to a sibling file of the same directory when rel == 'sibling') under the schedule ``segs`` =
+    [(writer, park before its boundary number n), ...]; when the list is used up the writers run to their end one
+    after the other, the one that was not running last first."""
+    try:
+        return _execute_conc(entry, old_tag, tags, rel, segs, plan, wdir, ())
+    except NeedFine:
+        return _execute_conc(entry, old_tag, tags, rel, segs, plan, wdir, FINE_ALL)
+
+
+def _execute_conc(entry: str, old_tag: str, tags: Tuple[str, str], rel: str, segs: List[Tuple[int, Optional[int]]],
+                  plan: List[Dict[str, Any]], wdir: str, fine: Any) -> CRes:
+    eng = engine()
+    watch = _WATCH
+    assert watch is not None
+    if any(f["kind"] != FAIL for f in plan):
+        raise HarnessError("the two-writer leg takes failing calls only (a kill is the reader probe at that boundary)")
+    alt = rel == "sibling"
+    news_w = [reference_new(entry, tags[0], wdir), reference_new(entry, tags[1], wdir, alt)]
+    d = os.path.join(wdir, "x")
+    _fresh(d)
+    sps = [_spec(entry, d, tags[0]), _spec(entry, d, tags[1], alt)]
+    paths: List[str] = []
+    olds: Dict[str, Optional[bytes]] = {}
+    accept: Dict[str, List[bytes]] = {}
+    for w_ in (0, 1):
+        for k, p in enumerate(sps[w_]["dests"]):
+            if p not in accept:
+                paths.append(p)
+                accept[p] = []
+                olds[p] = None if old_tag == "absent" else sps[w_]["olds"][k]
+            if news_w[w_][k] not in accept[p]:
+                accept[p].append(news_w[w_][k])
+    if alt and set(sps[0]["dests"]) & set(sps[1]["dests"]):
+        raise HarnessError("sibling destinations of %s coincide" % entry)
+    for p in paths:
+        if olds[p] is not None:
+            with open(p, "wb") as f:
+                f.write(olds[p])
+    initial = set(os.listdir(d))
+    legit = initial | {os.path.basename(p) for p in paths}
+    readers = sps[0]["readers"]
+    pv: Dict[str, Tuple[int, str]] = {}
+
+    def state_of(p: str, b: Optional[bytes]) -> str:
+        if b is None:
+            return "absent"
+        for w_ in (0, 1):
+            ds = sps[w_]["dests"]
+            if p in ds and b == news_w[w_][ds.index(p)]:
+                return "new" + "AB"[w_]
+        if olds[p] is not None and b == olds[p]:
+            return "old"
+        return "other"
+
+    def look(bidx: int) -> Tuple[Dict[str, str], List[str]]:
+        states: Dict[str, str] = {}
+        for p in paths:
+            b = _read(p)
+            ok = (b == olds[p]) or (b in accept[p])
+            if not ok and "partial-visible" not in pv:
+                pv["partial-visible"] = (bidx, "%s holds %s: neither old (%s) nor the complete new content of a writer (%s bytes)" % (
+                    os.path.basename(p), "nothing" if b is None else "%d bytes %r" % (len(b), b[:16]),
+                    "absent" if olds[p] is None else "%d bytes" % len(olds[p]), "/".join(str(len(x)) for x in accept[p])))
+            states[p] = state_of(p, b) if ok else "other"
+        strays = sorted(set(os.listdir(d)) - legit)
+        if strays and "temp-discoverable" not in pv:
+            why = mistakable(strays, readers, wdir)
+            if "snap" in readers:
+                got = snap_mod._pick_latest_snapshot_path(d)
+                if got is not None and os.path.basename(got) in strays:
+                    why = why + ["_pick_latest_snapshot_path returns %s" % os.path.basename(got)]
+            if why:
+                pv["temp-discoverable"] = (bidx, "; ".join(why))
+        return states, strays
+
+    baton = _Baton(2)
+    outs: List[Optional[Tuple[str, Any]]] = [None, None]
+    needfine: List[int] = []
+    herr: List[str] = []
+    nprobes = [0]
+    other_done_at_start: List[Optional[bool]] = [None, None]
+    prof = fine == FINE_ALL
+
+    def probe(_eng, ent):
+        t = baton.me()
+        if t is None:
+            herr.append("boundary %s reached outside the writer threads" % ent["name"])
+            return
+        ent["w"] = t
+        if other_done_at_start[t] is None:
+            other_done_at_start[t] = outs[1 - t] is not None
+        if t == 1 or baton.count[1]:
+            # (while B has not begun, A's run is the single-writer run, probed at every boundary by the other legs)
+            nprobes[0] += 1
+            look(ent["i"])
+        watch.boundary(ent)
+        eng.in_probe = False        # the writer parks here: the other writer's calls are numbered, not passed through
+        try:
+            baton.boundary(t)
+        finally:
+            eng.in_probe = True
+
+    def body(t: int) -> None:
+        baton.tls.t = t
+        baton.wait_start(t)
+        if prof:
+            sys.setprofile(watch._prof)
+        try:
+            try:
+                v = sps[t]["thunk"]()
+                outs[t] = ("killed", None) if eng.dead else ("return", v)
+            except Crash:
+                outs[t] = ("killed", None)
+            except NeedFine as nf:
+                needfine.append(nf.at)
+                outs[t] = ("abort", None)
+            except BaseException as e:  # noqa: BLE001 -- the failure the caller of this write sees
+                outs[t] = ("killed", None) if eng.dead else ("raise", e)
+        finally:
+            sys.setprofile(None)
+            baton.finish(t)
+
+    def fs_sig():
+        return tuple(_read(p) for p in paths), tuple(sorted(os.listdir(d)))
+
+    eng.begin(plan, probe=probe, root=d, names="alpha")
+    watch.begin(d, fs_sig, fine)
+    sys.setprofile(None)        # the controller thread is no writer (the writers install the observer themselves)
+    saved_seq = _det_names(eng)
+    threads = [threading.Thread(target=body, args=(t,), daemon=True) for t in (0, 1)]
+    parks: List[str] = []
+    blocked = False
+    try:
+        for th in threads:
+            th.start()
+        last = 1
+        for t, target in segs:
+            got = baton.resume(t, target)
+            parks.append(got)
+            last = t
+            if got == "blocked" or needfine:
+                blocked = got == "blocked"
+                break
+        if not blocked and not needfine:
+            for t in (1 - last, last):
+                if baton.resume(t, None) == "blocked":
+                    blocked = True
+                    break
+        if blocked or needfine:
+            baton.release_all()
+        for th in threads:
+            th.join(60.0)
+        if any(th.is_alive() for th in threads):
+            baton.release_all()
+            raise HarnessError("two-writer leg: the writers of %s never finish (schedule %s)" % (entry, _segs_str(segs)))
+        trace, fired = eng.trace, eng.fired
+        unfired_at = [f for f in eng.unfired() if "at" in f]
+        if watch.need_at is not None and not needfine:
+            needfine.append(watch.need_at)
+    finally:
+        _tempfile._name_sequence = saved_seq
+        watch.end()
+        eng.end()
+    if needfine and fine != FINE_ALL:
+        raise NeedFine(needfine[0])
+    if herr:
+        raise HarnessError(herr[0])
+    r = CRes()
+    r.outs, r.trace, r.fired, r.nprobes, r.parks, r.blocked = outs, trace, fired, nprobes[0], parks, blocked
+    r.counts, r.escapes, r.doors = list(baton.count), watch.escapes, list(watch.doors)
+    r.viol = []
+    r.klass = ("blocked",)
+    if blocked:
+        return r        # the schedule does not exist for this implementation (a writer waits for the parked one)
+    if unfired_at:
+        raise HarnessError("nondeterministic replay: planned fault %r never reached by the two writers of %s" % (
+            unfired_at[0], entry))
+    states, strays = look(-1)
+    first_fault = fired[0][0] if fired else None
+    clauses: List[Tuple[str, str, bool]] = []
+    for cl, (bidx, detail) in sorted(pv.items()):
+        pre = (bidx != -1 and (first_fault is None or bidx <= first_fault)) or (bidx == -1 and not fired)
+        where = "final state" if bidx == -1 else "reader at boundary #%d (writer %s before %s in %s)" % (
+            bidx, "AB"[trace[bidx].get("w", 0)], trace[bidx]["name"], trace[bidx]["site"])
+        clauses.append((cl, "%s: %s" % (where, detail), pre))
+    kinds = [o[0] if o else "abort" for o in outs]
+    for w_ in (0, 1):
+        if kinds[w_] != "return":
+            continue
+        for k, p in enumerate(sps[w_]["dests"]):
+            if not (sps[w_]["must_new"][k] or not fired):
+                continue
+            mine = "new" + "AB"[w_]
+            if alt or (other_done_at_start[w_] and kinds[1 - w_] == "return"):
+                # nobody else writes this file / the other write was over before this one began: it must be this content
+                good = states[p] == mine or _read(p) == news_w[w_][k]
+                want = "its new content"
+            else:
+                good = states[p].startswith("new")
+                want = "the complete new content of one of the writers"
+            if not good:
+                clauses.append(("return-without-new", "writer %s returned normally but %s is %s, not %s" % (
+                    "AB"[w_], os.path.basename(p), states[p], want), not fired))
+    if "killed" not in kinds and strays:
+        failing = [(i, f) for i, f in fired if f["kind"] in (FAIL, FAIL_DROP)]
+        exempt = any(trace[i]["name"] in CLEANUP_CALLS and trace[i]["path"] in strays for i, f in failing)
+        if (failing and not exempt) or (not fired and "raise" in kinds):
+            clauses.append(("temp-left", "both writers are done (%s), a write failed and %s is left" % (
+                "/".join(kinds), strays), not fired))
+    head = "two writers of %s (%s) old=%s A=%s B=%s schedule=[%s] plan=%s outcomes=%s" % (
+        entry, "same destination" if not alt else "sibling files of one directory", old_tag, tags[0], tags[1],
+        _segs_str(segs), _plan_str(plan), "/".join(
+            k + ((" %r" % (outs[w_][1],)) if k == "raise" else "") for w_, k in enumerate(kinds)))
+    by_sig: Dict[str, List[str]] = {}
+    for cl, detail, pre in clauses:
+        sig = "writers[%s]:%s" % (rel, cl) if pre else "writers[%s]:%s" % (rel, _sig_of(fired, trace))
+        by_sig.setdefault(sig, []).append("%s — %s" % (cl, detail))
+    for sig, ds in by_sig.items():
+        r.viol.append((sig, head + " :: " + " | ".join(ds)))
+    r.klass = ("2w", rel, tuple(kinds), tuple(type(o[1]).__name__ if o and o[0] == "raise" else "" for o in outs),
+               tuple(states[p] for p in paths), bool(strays))
     return r
 
 
@@ -652,6 +997,79 @@ def _exhaust_worker(chunk, st: Stats, scratch: str, errnos2: List[str]):
     shutil.rmtree(w, ignore_errors=True)
 
 
+
+def _account_conc(st: Stats, key: Tuple, segs, plan, r: CRes) -> None:
+    entry, old_tag, tags, rel = key
+    st.add("transitions", len(r.trace))
+    st.add("executions")
+    st.add("plans_writers")
+    if r.blocked:
+        st.add("writers_schedules_blocked")
+        return
+    st.add("validated")
+    st.add("reader_probes", r.nprobes + 1)
+    if r.escapes:
+        st.add("executions_with_escaped_calls")
+        st.add("escaped_calls", r.escapes)
+        for door in r.doors:
+            st.distinct("escape_doors", door)
+    st.distinct("states", ("2w", entry, old_tag, list(tags), rel, [list(x) for x in segs], plan))
+    st.distinct("outcomes", r.klass)
+    if sum(1 for x in r.parks if x == "parked") >= 2 or r.fired:
+        st.add("nontrivial")            # the two writes really overlap
+        st.add("writers_overlapping")
+    case = {"entry": entry, "old": old_tag, "new": tags[0], "plan": plan,
+            "writers": {"new2": tags[1], "rel": rel, "segs": [list(x) for x in segs]}}
+    if r.viol:
+        rank = (list(ENTRY_TAGS).index(entry) * 4 + ["old", "absent"].index(old_tag) * 2 + (tags[0] != "small"))
+        case["witness_order_pad"] = "." * (24 * rank + sum((n or 0) for _t, n in segs))
+        st.add("failing_executions")
+    for sig, what in r.viol:
+        st.violation(sig, what, case)
+
+
+def _conc_worker(chunk, st: Stats, scratch: str, deep: bool, errnos: List[str]):
+    """chunk: [(entry, old, (tagA, tagB), rel, i)] — A parks before its boundary i (None: A runs to its end first);
+    then B parks before its boundary j for every j until B finishes inside that window; A to the end, B to the end.
+    deep: additionally, for every (i, j), A is stopped a second time before its boundary i2 > i (B then runs to its end
+    first), and every failing call of the (i, j) schedule x errnos is injected."""
+    w = _wdir(scratch)
+    for entry, old_tag, tags, rel, i in chunk:
+        key = (entry, old_tag, tags, rel)
+        if i is None:
+            segs: List[Tuple[int, Optional[int]]] = [(0, None)]
+            _account_conc(st, key, segs, [], execute_conc(entry, old_tag, tags, rel, segs, [], w))
+            continue
+        j = 1
+        while True:
+            segs = [(0, i), (1, j)]
+            r = execute_conc(entry, old_tag, tags, rel, segs, [], w)
+            if not deep:        # (the deep pass re-runs the one-window schedules of the first pass to extend them)
+                _account_conc(st, key, segs, [], r)
+            if r.blocked or len(r.parks) < 2 or r.parks[0] != "parked" or r.parks[1] != "parked":
+                break       # A finished before boundary i (sequential) / B finished inside the window: no later j
+            if deep:
+                i2 = i + 1
+                while True:
+                    segs3 = [(0, i), (1, j), (0, i2)]
+                    r3 = execute_conc(entry, old_tag, tags, rel, segs3, [], w)
+                    _account_conc(st, key, segs3, [], r3)
+                    if r3.blocked or len(r3.parks) < 3 or r3.parks[2] != "parked":
+                        break
+                    i2 += 1
+                for ent in r.trace:
+                    if not ent["failable"]:
+                        continue
+                    for e in errnos:
+                        plan = [{"at": ent["i"], "kind": FAIL, "errno": e}]
+                        _account_conc(st, key, segs, plan, execute_conc(entry, old_tag, tags, rel, segs, plan, w))
+            j += 1
+        if len(st.samples) < 1:
+            st.sample({"entry": entry, "writers": 2, "relation": rel, "A_parked_before_boundary": i,
+                       "B_windows_tried": j})
+    shutil.rmtree(w, ignore_errors=True)
+
+
 def run(run: Run) -> None:
     present = entries_present()
     missing = [e for e in ENTRY_TAGS if e not in present]
@@ -744,8 +1162,38 @@ def run(run: Run) -> None:
         for first in exhaust_firsts(golden[c], R, every_write=thorough):
             items3.append((c, first))
     run.pmap(_exhaust_worker, items3, extra=(run.scratch, errnos2))
+    # ---- phase 4: two writers in one process, every schedule with one window (thorough: two windows, failing calls)
+    items4 = []
+    conc_pairs = {}
+    for e in present:
+        tg = ENTRY_TAGS[e]
+        conc_pairs[e] = [("small", "big"), ("big", "small")] if "big" in tg else [("small", "small")]
+        if not thorough:
+            conc_pairs[e] = conc_pairs[e][:1]
+        for old in (("old", "absent") if thorough and e in DEEP_ENTRIES else ("old",)):
+            for tags in conc_pairs[e]:
+                n0 = len(golden[(e, old, tags[0])])
+                for rel in ("same", "sibling"):
+                    if rel == "sibling" and not thorough and e not in DEEP_ENTRIES:
+                        continue    # quick: sibling files through one entry point per module that owns a write path
+                    items4.append((e, old, tags, rel, None))
+                    for i in range(n0):
+                        items4.append((e, old, tags, rel, i))
+    run.pmap(_conc_worker, items4, extra=(run.scratch, False, []))
+    if thorough:
+        items5 = [it for it in items4 if it[4] is not None and it[1] == "old" and it[2][0] == "small"
+                  and it[0] == DEEPER_ENTRY]
+        run.pmap(_conc_worker, [it for it in items5 if it[3] == "same"], extra=(run.scratch, True, ["EIO", "EACCES"]))
+        run.pmap(_conc_worker, [it for it in items5 if it[3] != "same"], extra=(run.scratch, True, []))
     shutil.rmtree(w, ignore_errors=True)
     run.notes["escaped_calls_seen"] = int(run.n.get("escaped_calls", 0))
+    run.notes["two_writer_executions"] = int(run.n.get("plans_writers", 0))
+    run.notes["two_writer_executions_overlapping"] = int(run.n.get("writers_overlapping", 0))
+    if _SEAMS_ABSENT:
+        run.notes["seams_not_imported_by_this_tree"] = list(_SEAMS_ABSENT)
+    if run.n.get("writers_schedules_blocked"):
+        run.cap("%d two-writer schedules could not be run: a writer waited for something the parked writer holds" %
+                int(run.n["writers_schedules_blocked"]))
 
     run.rule = ("entry point x old in {absent, old} x new in {empty, small, 100 KiB} (composite snapshot writers: "
                 "{small, 100 KiB}); per combination: fault-free run numbers the I/O boundaries, then every single "
@@ -753,17 +1201,24 @@ def run(run: Run) -> None:
                 "n in {1, len/2, len-1}; every pair (fail|short first, any fault at any later boundary of the "
                 "re-numbered trace%s); replace failing k in {1,2,%d,%d} times x {%s} (+ kill around attempt k+1); "
                 "replace (%s) failing on all %d attempts x {%s}, then any fault of the alphabet at any later boundary "
-                "of that re-numbered trace%s; temp-name profiles %s; reader probe at every boundary.  Boundaries = every "
+                "of that re-numbered trace%s; temp-name profiles %s; two writers of one entry point in one process (same "
+                "destination with contents small/100 KiB, and sibling files of one directory%s): A parked before its "
+                "boundary i x B parked before its boundary j, then A to the end, then B, every (i, j) + the sequential "
+                "order%s; reader probe at every boundary.  Boundaries = every "
                 "call through the proxied module globals + every audited file-system call under the directory made "
                 "through any other door (esc:*, same alphabet) + from the first such open-for-writing on every "
                 "C-call return after which the destination contents / listing changed without a numbered call in "
-                "between (kill point + reader).  non-trivial = at least one fault fired" % (
+                "between (kill point + reader).  non-trivial = at least one fault fired, or the two writes really overlap" % (
                     ",".join(ERRNOS + (["EPERM", "EROFS"] if thorough else [])),
                     "" if thorough else "; quick: second errno in {EIO,EACCES,PermissionError}, pairs on (old, small) only, + (absent, small) for atomic_write_bytes",
                     R - 1, R, ",".join(TRANSIENT_ERRNOS),
                     "of every file a composite writer replaces" if thorough else "the first of the write",
                     R, ",".join(TRANSIENT_ERRNOS),
-                    "" if thorough else " (quick: same restriction as the pairs)", name_profiles))
+                    "" if thorough else " (quick: same restriction as the pairs)", name_profiles,
+                    "; old in {old, absent} for %s, both content assignments" % "/".join(DEEP_ENTRIES) if thorough
+                    else "; quick: old=old, A small / B 100 KiB, sibling files for %s only" % "/".join(DEEP_ENTRIES),
+                    ("; for %s additionally a second window of A (i2 > i, B ends first) and every failing call of "
+                     "the (i, j) schedule x {EIO,EACCES}" % DEEPER_ENTRY) if thorough else ""))
     if missing:
         run.notes["entry_points_absent_in_this_tree"] = missing
     run.assume("rename(2)/os.replace itself is atomic on the local file system; process death, not power loss: "
@@ -782,6 +1237,15 @@ def run(run: Run) -> None:
                int(run.n.get("escaped_calls", 0)))
     run.assume("exhausted retries: all R failures carry the same errno; the further fault lies after the last "
                "failed attempt")
+    run.assume("two-writer leg: the writers are threads of one process and exchange control only at numbered I/O "
+               "boundaries (what a writer does between two boundaries is invisible to the other); at most two windows; "
+               "both writers use the same entry point; no kill plans (process death at a boundary = the reader probe "
+               "there); a writer that raises without an injected fault is not a violation by itself; while B has not "
+               "begun, A's boundaries are those of the single-writer legs and are not probed again; escaped writable "
+               "handles are fine-stepped per writer thread")
+    run.assume("a seam (os / tempfile / time / Path) that clematis.io.atomic does not import is not required: its "
+               "calls are numbered through the other proxies or as esc:* boundaries; temp names drawn from the stdlib "
+               "generator are the counting sequence whichever door is used")
     run.assume("readers = _pick_latest_snapshot_path (on the directory and on the strays alone) for snapshot "
                "directories, glob *.jsonl for log directories, both for the generic atomic_write_* entry points")
 
@@ -790,6 +1254,11 @@ def replay(case) -> List[Tuple[str, str]]:
     import tempfile
     w = tempfile.mkdtemp(prefix="c08r", dir="/dev/shm" if os.path.isdir("/dev/shm") else None)
     try:
+        if case.get("writers"):
+            cw = case["writers"]
+            rc = execute_conc(case["entry"], case["old"], (case["new"], cw["new2"]), cw["rel"],
+                              [(int(t), (None if n is None else int(n))) for t, n in cw["segs"]], case["plan"], w)
+            return list(rc.viol)
         r = execute(case["entry"], case["old"], case["new"], case["plan"], case.get("names", "alpha"), w,
                     case.get("fine") or ())
         return list(r.viol)
